@@ -9,8 +9,6 @@ Open Scope Z_scope.
 (** * key classes *)
 Definition Qcount (k : list N) : bool := is_prefix P_count k.
 Definition Qcoins (k : list N) : bool := is_prefix P_coins k.
-(** an index entry proper: not a counter, not a version key list *)
-Definition plain (k : list N) : bool := negb (is_prefix P_mkl k) && negb (is_counter_key k).
 
 Lemma count_key_Q a : Qcount (count_key a) = true.
 Proof. apply is_prefix_app. Qed.
